@@ -3,7 +3,7 @@
 # For A and B: confirm independently, store under /verif/seeded/<id>-<X>/, run all checks (quick) against it.
 ID="$1"; WT="$2"; VERIF=/verif
 ALL="C01 C02 C03 C04 C05 C06 C07 C08 C09 C10 C11 C12 C13 C14 C15 C16 C17 C18 C19"
-for X in A B; do
+for X in ${SEED_NAMES:-A B}; do
   S="$WT/seeded/$X"
   [ -f "$S/patch.diff" ] || { echo "$ID-$X: missing"; continue; }
   DEST="$VERIF/seeded/$ID-$X"; mkdir -p "$DEST"
